@@ -572,7 +572,9 @@ def lift_into(rep: Report, rid: str, rules: tuple[str, ...], what: str) -> None:
     property's rules on the same tree and report their unlisted findings under the other property's rule id"""
     from ..core import load_known, match_known
     sub = Report('C19', rep.repo, 'quick')
-    analyse(sub)
+    fns = {'R19.1': r19_1, 'R19.2': r19_2, 'R19.3': r19_3, 'R19.4': r19_4, 'R19.5': r19_5}
+    for r_ in rules:
+        fns[r_](sub)                 # each rule function registers its own rule; only the lifted ones run
     known, _ = load_known('C19')
     hits = [f for f in sub.findings if f.rule in rules and match_known(f, known) is None]
     n_inst = sum(sub.rules[r].instances for r in rules if r in sub.rules)
